@@ -308,6 +308,38 @@ def w_truth(ctx: core.Ctx, arg):
         ctx.count('shutdown.messages', len(world.network.log) - n0)
 
 
+def _poison_and_repair(ctx, world, hist, rng):
+    """the application commits a value that cannot be serialised into schema-valid XML (xsd:decimal has no NaN): the library must not
+    put the invalid report on the wire for ANY subscriber (validate_wire judges every message); the state is repaired right after."""
+    from decimal import Decimal
+    mdib = world.mdib
+    numeric = [h for h in mdibops.catalog(mdib)['metric']
+               if mdib.states.descriptor_handle.get_one(h, allow_none=True) is not None
+               and type(mdib.states.descriptor_handle.get_one(h)).__name__ == 'NumericMetricStateContainer']
+    if not numeric:
+        return
+    h = rng.choice(numeric)
+    try:
+        with mdib.metric_state_transaction() as mgr:
+            st = mgr.get_state(h)
+            if st.MetricValue is None:
+                st.mk_metric_value()
+            st.MetricValue.Value = Decimal('NaN')
+        ctx.count('schema.poison.accepted_without_error')
+    except Exception as ex:  # noqa: BLE001
+        ctx.count(f'schema.poison.raised.{type(ex).__name__}')
+    hist.record()
+    hist.problems.clear()
+    try:
+        with mdib.metric_state_transaction() as mgr:
+            st = mgr.get_state(h)
+            st.MetricValue.Value = Decimal(rng.randrange(0, 100))
+    except Exception as ex:  # noqa: BLE001
+        ctx.count(f'schema.poison.repair_raised.{type(ex).__name__}')
+    hist.record()
+    hist.problems.clear()
+
+
 def _flush_periodic(ctx, world, hist, handler, netloc, reader, label):
     """what the periodic send loop does when its timer fires, then check the periodic reports on the wire."""
     ses = world.provider.hosted_services.state_event_service
@@ -365,6 +397,9 @@ def w_order_stress(ctx: core.Ctx, arg):
     mdib = world.mdib
     consumers = [world.add_consumer(with_mdib=False)[0] for _ in range(2)]
     netlocs = [f'127.0.0.1:{c.vf_server.server_port}' for c in consumers]
+    delay_rng = ctx.rng('order-delay', arg['i'])
+    # async SOAP client: the transfer of a notification really suspends (slow link); a sender that does not wait for it is overtaken
+    world.network.async_delay = lambda netloc, path, data: (delay_rng.choice([0, 0, 0.002, 0.004]) if netloc in netlocs else 0)
     old = sys.getswitchinterval()
     sys.setswitchinterval(1e-5)
     errors = []
@@ -410,6 +445,8 @@ def w_order_explore(ctx: core.Ctx, arg):
     mdib = world.mdib
     consumer, _ = world.add_consumer(with_mdib=False)
     netloc = f'127.0.0.1:{consumer.vf_server.server_port}'
+    delay_rng = ctx.rng('explore-delay', arg['i'])
+    world.network.async_delay = lambda nl, path, data: (delay_rng.choice([0, 0.002, 0.004]) if nl == netloc else 0)
     inst = Instrumented(mdib)
     tr_proxy = LockProxy(mdib._tr_lock, 'tr', inst)
     mdib._tr_lock = tr_proxy
@@ -453,6 +490,30 @@ def w_order_explore(ctx: core.Ctx, arg):
                                 {'writer_op': a, 'foreign_op': b, 'point': list(points[pi]), 'versions_in_delivery_order': seq, 'mdib_file': mdib_file})
             ctx.count('order.explore_points', len(points))
     world.stop()
+
+
+def w_poison(ctx: core.Ctx, arg):
+    """values that cannot be written as schema-valid XML: nothing invalid may reach ANY subscriber (a notification failure may end the
+    subscription - that is why this runs in worlds of its own)."""
+    rng = ctx.rng('poison', arg['i'])
+    seen = set()
+    for rep in range(arg['n']):
+        mdib_file = MDIB_FILES[(arg['i'] + rep) % len(MDIB_FILES)]
+        async_mgr = rep % 2 == 0
+        world = World(mdib_file, role_provider=False, async_mgr=async_mgr)
+        hist = History(world.mdib)
+        for _ in range(rng.randrange(2, 5)):
+            world.add_consumer(with_mdib=False)
+        memo = {}
+        for _ in range(5):
+            mdibops.apply_op(world.mdib, mdibops.gen_op(rng, world.mdib, memo, {'metric': 1, 'alert': 1}), memo)
+        _poison_and_repair(ctx, world, hist, rng)
+        for _ in range(3):
+            mdibops.apply_op(world.mdib, mdibops.gen_op(rng, world.mdib, memo, {'metric': 1, 'alert': 1}), memo)
+        validate_wire(ctx, world, seen, {'mdib_file': mdib_file, 'async_mgr': async_mgr, 'scenario': 'NaN metric value committed'})
+        ctx.case(('poison', mdib_file, async_mgr, len(world.consumers)))
+        ctx.count('schema.poison.worlds')
+        world.stop()
 
 
 def w_periodic_retrievability(ctx: core.Ctx, arg):
@@ -561,8 +622,10 @@ def run(ctx: core.Ctx):
     jobs += [['w_order_stress', {'i': k, 'writers': 2 + k % 3 * 2, 'ops': 60 if q else 600}] for k in range(4 if q else 16)]
     jobs += [['w_order_explore', {'i': k, 'k': 1 + k % 2}] for k in range(2 if q else 8)]
     jobs += [['w_periodic_retrievability', {'i': k, 'rounds': 15 if q else 150}] for k in range(4 if q else 8)]
+    jobs += [['w_poison', {'i': k, 'n': 4 if q else 40}] for k in range(2 if q else 8)]
     core.fanout(ctx, MODULE, 'dispatch', jobs, timeout=3000)
     ctx.floor('periodic.loop.states_checked', 100)
+    ctx.floor('schema.poison.worlds', 8)
     ctx.floor('periodic.loop.injected_transactions', 20)
     ctx.floor('truth.transactions', 400)
     ctx.floor('truth.states_checked', 1000)
